@@ -8,27 +8,16 @@ Open Scope N_scope.
 
 Ltac Zify.zify_post_hook ::= Z.div_mod_to_equations.
 
-(* ---------------------------------------------------------------- equivalences that are still false *)
-Definition name_equiv : Prop := forall s, valid_topic_name_impl true s = Ok (spec_topic_name s).
-Definition name_bytes_equiv : Prop := forall s, valid_topic_name_impl false s = Ok (valid_name_spec s).
-Definition filter_equiv : Prop := forall s, valid_topic_filter_impl true s = Ok (spec_topic_filter s).
-Definition v5_filter_equiv : Prop := forall s, valid_v5_topic_impl s = Ok (spec_v5_filter s).
-
-(* "" is accepted as a topic name *)
-Theorem name_equiv_refuted : ~ name_equiv.
-Proof. intro H. specialize (H []). vm_compute in H. discriminate. Qed.
-Theorem name_bytes_equiv_refuted : ~ name_bytes_equiv.
-Proof. intro H. specialize (H []). vm_compute in H. discriminate. Qed.
-(* U+0000 is accepted by the topic predicates when they are called directly (the decoder calls
-   ValidUTF8 first, which refuses it) *)
-Theorem filter_equiv_refuted : ~ filter_equiv.
-Proof. intro H. specialize (H [97; 0]). vm_compute in H. discriminate. Qed.
-Theorem v5_filter_equiv_refuted : ~ v5_filter_equiv.
-Proof. intro H. specialize (H [97; 0]). vm_compute in H. discriminate. Qed.
-(* U+0000 is accepted inside a topic name by ValidTopicName(true, ..) *)
-Theorem name_accepts_nul : valid_topic_name_impl true [97; 0] = Ok true /\ spec_topic_name [97; 0] = false.
-Proof. split; vm_compute; reflexivity. Qed.
-(* repaired: "+a", "+a/#", "$share/g/+a" are refused; U+FFFD is accepted in names, filters, share names *)
+(* ---------------------------------------------------------------- witnesses of the repaired defects *)
+(* "" is not a topic name; U+0000 is refused; "+a", "+a/#", "$share/g/+a" are refused;
+   U+FFFD is accepted in names, filters, share names *)
+Lemma empty_name_refused : valid_topic_name_impl true [] = Ok false /\ valid_topic_name_impl false [] = Ok false.
+Proof. split; reflexivity. Qed.
+Lemma nul_refused :
+  valid_topic_name_impl true [97; 0] = Ok false /\ valid_topic_name_impl false [97; 0] = Ok false
+  /\ valid_topic_filter_impl true [97; 0] = Ok false /\ valid_v5_topic_impl [97; 0] = Ok false
+  /\ valid_v5_topic_impl [36; 115; 104; 97; 114; 101; 47; 0; 47; 97] = Ok false.
+Proof. repeat split; vm_compute; reflexivity. Qed.
 Lemma plus_prefix_refused :
   valid_topic_filter_impl true [43; 97] = Ok false /\ valid_topic_filter_impl false [43; 97; 47; 35] = Ok false
   /\ valid_v5_topic_impl [36; 115; 104; 97; 114; 101; 47; 103; 47; 43; 97] = Ok false.
@@ -84,27 +73,54 @@ Proof.
 Qed.
 
 (* ---------------------------------------------------------------- ValidTopicName(false, p) *)
+Lemma no_nul_app : forall a b, no_nul (a ++ b) = no_nul a && no_nul b.
+Proof. intros. unfold no_nul. rewrite existsb_app. destruct (existsb _ a), (existsb _ b); reflexivity. Qed.
+Lemma no_nul_high : forall l, forallb (fun x => 128 <=? x) l = true -> no_nul l = true.
+Proof.
+  induction l; intros H; [reflexivity|]. cbn [forallb] in H. apply andb_prop in H. destruct H as [Ha Hl].
+  unfold no_nul in *. cbn [existsb]. replace (0 =? a) with false by lia. cbn [orb]. now apply IHl.
+Qed.
+Lemma no_nul_cons : forall a t, no_nul (a :: t) = negb (a =? 0) && no_nul t.
+Proof. intros. unfold no_nul. cbn [existsb]. rewrite N.eqb_sym. destruct (a =? 0); reflexivity. Qed.
+
+(* the bytes DecodeRune steps over contain U+0000 only if the rune is U+0000 *)
+Lemma rune_nul : forall p0 t, let p := p0 :: t in
+  no_nul (takeN (snd (decode_rune p)) p) = negb (fst (decode_rune p) =? 0).
+Proof.
+  intros p0 t p. destruct (decode_rune_size p ltac:(discriminate)) as [H1 H2].
+  unfold p at 3. rewrite decode_rune_zero.
+  destruct (N.eqb_spec (snd (decode_rune p)) 1) as [E|E].
+  - rewrite E. subst p. cbn [takeN N.eqb N.pred Pos.pred_N]. rewrite takeN_0.
+    rewrite no_nul_cons. unfold no_nul. cbn [existsb]. rewrite andb_true_r. reflexivity.
+  - pose proof (decode_rune_multi p ltac:(lia)) as Hh. rewrite (no_nul_high _ Hh).
+    assert (Hp0 : 128 <= p0).
+    { subst p. cbn [takeN] in Hh. replace (snd (decode_rune (p0 :: t)) =? 0) with false in Hh by lia.
+      cbn [forallb] in Hh. lia. }
+    replace (p0 =? 0) with false by lia. reflexivity.
+Qed.
+
 Lemma valid_topic_name_loop_bytes : forall fuel p, (length p < fuel)%nat ->
-  valid_topic_name_loop fuel false p = Ok (negb (has_wild p)).
+  valid_topic_name_loop fuel false p = Ok (negb (has_wild p) && no_nul p).
 Proof.
   induction fuel; intros p Hf; [lia|]. cbn [valid_topic_name_loop].
   destruct p as [|p0 t] eqn:Ep; [reflexivity|]. rewrite <- Ep in *.
   assert (Hp : p <> []) by (subst; discriminate).
   destruct (rune_step p Hp) as [Hs Hl].
-  pose proof (rune_wild p0 t) as Hw. cbv zeta in Hw. rewrite <- Ep in Hw.
-  destruct (decode_rune p) as [ru size]. cbn [snd andb] in *.
-  rewrite <- (take_drop _ p size) at 2. rewrite has_wild_app, Hw.
+  pose proof (rune_wild p0 t) as Hw. pose proof (rune_nul p0 t) as Hz. cbv zeta in Hw, Hz. rewrite <- Ep in Hw, Hz.
+  destruct (decode_rune p) as [ru size]. cbn [fst snd andb] in *.
+  rewrite <- (take_drop _ p size) at 2 3. rewrite has_wild_app, no_nul_app, Hw, Hz.
+  destruct (ru =? 0); cbn [negb andb]; [now rewrite andb_false_r|].
   destruct ((size =? 1) && ((p0 =? PLUS) || (p0 =? HASH))); [reflexivity|].
-  rewrite Hs. cbn [bind orb]. apply IHfuel. lia.
+  rewrite Hs. cbn [bind orb negb]. apply IHfuel. lia.
 Qed.
 
-(* ValidTopicName(false, p) = "no byte of p is a wildcard": the specification's predicate
-   except for the empty name *)
-Theorem name_bytes_partial : forall s, kf_t_name_empty s = false ->
-  valid_topic_name_impl false s = Ok (valid_name_spec s).
+(* ValidTopicName(false, p): non-empty, no wildcard byte, no null byte - MQTT 4.7.3-1, 4.7.1-1,
+   4.7.3-2 - on every byte string *)
+Theorem name_bytes_exact : forall s,
+  valid_topic_name_impl false s = Ok (valid_name_spec s && no_nul s).
 Proof.
-  intros s H. unfold valid_topic_name_impl. rewrite valid_topic_name_loop_bytes by lia.
-  unfold valid_name_spec. unfold kf_t_name_empty in H. rewrite H. reflexivity.
+  intros s. unfold valid_topic_name_impl. destruct s as [|c t] eqn:Es; [reflexivity|]. rewrite <- Es.
+  rewrite valid_topic_name_loop_bytes by lia. unfold valid_name_spec. subst s. reflexivity.
 Qed.
 
 (* ---------------------------------------------------------------- ValidUTF8 *)
@@ -138,20 +154,26 @@ Proof.
   destruct (ru <=? 31); [discriminate|]. destruct ((127 <=? ru) && (ru <=? 159)); [discriminate|].
   cbn [andb] in *. destruct ((ru =? RUNE_ERROR) && (size <=? 1)); [discriminate|].
   destruct (negb (valid_rune ru)); [discriminate|].
+  destruct (ru =? 0); [reflexivity|].
   destruct ((size =? 1) && ((p0 =? PLUS) || (p0 =? HASH))); [reflexivity|].
   replace (size =? 0) with false in H by lia.
   destruct (slice_from size p) as [p'| | |] eqn:Es; cbn [bind] in *; try reflexivity.
   now apply IHfuel.
 Qed.
 
-(* ValidTopicName(true, s) on every non-empty string the decoder passes to it gives the
-   verdict of the specification *)
-Theorem name_decoder_partial : forall s,
-  valid_utf8_impl s = Ok true -> kf_t_name_empty s = false ->
-  valid_topic_name_impl true s = Ok (spec_topic_name s).
+Lemma G_no_nul : forall s, spec_utf8 s = true -> no_nul s = true.
+Proof. intros s H. unfold spec_utf8 in H. apply andb_prop in H. unfold no_nul. tauto. Qed.
+
+(* ValidTopicName(true, s) on every string the decoder passes to it gives the verdict of the
+   specification *)
+Theorem name_decoder_exact : forall s,
+  valid_utf8_impl s = Ok true -> valid_topic_name_impl true s = Ok (spec_topic_name s).
 Proof.
-  intros s Hu He. unfold valid_topic_name_impl. rewrite name_loop_must by assumption.
-  fold (valid_topic_name_impl false s). rewrite name_bytes_partial by assumption.
-  unfold spec_topic_name. rewrite valid_utf8_impl_spec in Hu.
-  destruct (spec_utf8 s); [reflexivity|]. cbn in Hu. discriminate.
+  intros s Hu. rewrite valid_utf8_impl_spec in Hu.
+  assert (Hsu : spec_utf8 s = true) by (destruct (spec_utf8 s); [reflexivity|cbn in Hu; discriminate]).
+  rewrite <- valid_utf8_impl_spec in Hu.
+  transitivity (valid_topic_name_impl false s).
+  2:{ rewrite name_bytes_exact, (G_no_nul s Hsu), andb_true_r. unfold spec_topic_name. rewrite Hsu. reflexivity. }
+  unfold valid_topic_name_impl. destruct s as [|c t] eqn:Es; [reflexivity|]. rewrite <- Es in *.
+  now apply name_loop_must.
 Qed.
